@@ -149,7 +149,9 @@ func (g *Global) LLString() string {
 		fmt.Fprintf(buf, ", partition %s", quote(g.Partition))
 	}
 	if g.Comdat != nil {
-		if g.Comdat.Name == g.Name() {
+		if !g.IsUnnamed() && g.Comdat.Name == g.GlobalName {
+			// The comdat name may only be left out if it is the name of the
+			// (named) global.
 			buf.WriteString(", comdat")
 		} else {
 			fmt.Fprintf(buf, ", %s", g.Comdat)
